@@ -81,7 +81,9 @@ class UnitBuild:
         for alias, pat in cfg.get('recs', {}).items():
             cands = [r for r in self.ast.recs.values() if re.search(pat, r.qname)]
             if not cands:
-                raise Unsupported('record alias %s: no record matches %s' % (alias, pat))
+                # not instantiated by this witness: harmless unless a contract mentions it (then the C does not compile -> exit 2)
+                self.notes.append('record alias %s matches no record of the witness' % alias)
+                continue
             pick = cfg.get('rec_pick', {}).get(alias, 0)
             ctx.rec_alias[cands[pick].id] = alias
         if cfg['target'].get('ghost'):
@@ -216,14 +218,14 @@ class UnitBuild:
             emit('struct %s;' % ctx.rec_cname(r))
         for r in ctx.rec_order:
             emit(ctx.rec_defs[r.id])
-        # ghost state and helper text from the spec
-        for g in cfg.get('ghost', []):
-            emit(g)
         # symbolic constants
         emit('/* symbolic constants (static constexpr members / template parameters) */')
         for cn in ctx.const_order:
             info = ctx.consts[cn]
             emit('%s %s;' % (info['ctype'], cn))
+        # ghost state and helper text from the spec
+        for g in cfg.get('ghost', []):
+            emit(g)
         emit(self.init_consts())
         # prototypes (with contracts for contract/stub mode)
         for cname, sig in ctx.fn_decls.items():
